@@ -333,6 +333,28 @@ def run(ctx):
                     if hit and all(names.get(v) == 'Nil' for v in hit):
                         okk = True
                     why.append('match on the tail')
+                # `matches!(tail, Nil)`: a bool that is set to true only behind the Nil arm of a match on the tail
+                t_ = LB.blocks[src]['t']
+                if sb and t_['k'] == 'switch' and t_['d'].get('k') in ('cp', 'mv') and not t_['d']['pl'].get('p'):
+                    bl = t_['d']['pl']['l']
+                    defs_ = LB.defs().get(bl, [])
+                    trues = [d for d in defs_ if d[0] == 's' and d[3]['rv']['k'] == 'use' and d[3]['rv']['op'].get('k') == 'c' and d[3]['rv']['op'].get('v') == 1]
+                    falses = [d for d in defs_ if d[0] == 's' and d[3]['rv']['k'] == 'use' and d[3]['rv']['op'].get('k') == 'c' and d[3]['rv']['op'].get('v') == 0]
+                    if trues and len(trues) + len(falses) == len(defs_) and dst == t_['else']:
+                        names = {int(v['discr']): v['n'] for v in ctx.F.adts[adt_]['variants']}
+                        all_nil = True
+                        for d in trues:
+                            found = False
+                            for (s2, v2, d2) in _dom3(LB, d[1]):
+                                sd2 = LB.switch_on_discr(s2)
+                                if sd2 and sd2[1] == adt_:
+                                    hit2 = [v for v, b_ in sd2[2] if b_ == d2]
+                                    if hit2 and all(names.get(v) == 'Nil' for v in hit2):
+                                        found = True
+                            all_nil = all_nil and found
+                        if all_nil:
+                            okk = True
+                        why.append('matches!')
             inst = '%s:List' % fn.rsplit('::', 1)[1]
             if okk:
                 ctx.ok('C03.2-list-tail-kept', inst, 'proper list only behind tail == Nil', ctx.where(LB, bb))
